@@ -74,7 +74,7 @@ PROPS["C11"] = {
         {"name": "receive_multi_dispatch", "pkg": "region", "entry": "VerifReceiveMulti", "stubs": RECV_STUBS, "reach": ["answered", "left-registered"],
          "params": {"quick": {"CELLS": 0, "N": 0, "R": 2, "A": 1, "MAXCELLS": 1, "CALLS3": 1}, "thorough": {"CELLS": 0, "N": 0, "R": 2, "A": 2, "MAXCELLS": 1, "CALLS3": 1}}},
         {"name": "receive_multi_cells", "pkg": "region", "entry": "VerifReceiveMulti", "stubs": RECV_STUBS, "reach": ["answered", "left-registered"],
-         "params": {"quick": {"CELLS": 1, "N": 26, "R": 0, "A": 0, "MAXCELLS": 1, "CALLS3": 0}, "thorough": {"CELLS": 1, "N": 52, "R": 0, "A": 0, "MAXCELLS": 2, "CALLS3": 1}}},
+         "params": {"quick": {"CELLS": 1, "N": 26, "R": 0, "A": 0, "MAXCELLS": 1, "CALLS3": 0}, "thorough": {"CELLS": 1, "N": 34, "R": 0, "A": 0, "MAXCELLS": 1, "CALLS3": 1}}},
     ],
 }
 
@@ -482,10 +482,10 @@ PROPS["C09"] = {
          "preempts": {"quick": 2, "thorough": 3}, "params": {"quick": {"FAULTS": 0, "RACE": 1}, "thorough": {"FAULTS": 1, "RACE": 1}}},
         {"name": "evicted_while_establishing", "steps": 40000, "pkg": "root", "entry": "VerifEvictedWhileEstablishing", "stubs": EST_STUBS, "reach": ["evicted"],
          "preempts": {"quick": 1, "thorough": 2}, "params": {"quick": {"FAULTS": 0, "RACE": 1}, "thorough": {"FAULTS": 1, "RACE": 1}}},
-        {"name": "two_callers", "steps": 40000, "timeout_s": {"quick": 300, "thorough": 1500}, "pkg": "root", "entry": "VerifTwoCallers", "stubs": EST_STUBS, "reach": ["both-returned"],
-         "preempts": {"quick": 1, "thorough": 2}, "params": {"quick": {"FAULTS": 1, "BUSY": 1, "SAME": 0, "RACE": 1}, "thorough": {"FAULTS": 1, "BUSY": 1, "SAME": 0, "RACE": 1}}},
-        {"name": "two_callers_idle", "steps": 40000, "timeout_s": {"quick": 300, "thorough": 1500}, "pkg": "root", "entry": "VerifTwoCallers", "stubs": EST_STUBS, "reach": ["both-returned"],
-         "preempts": {"quick": 1, "thorough": 2}, "params": {"quick": {"FAULTS": 1, "BUSY": 0, "SAME": 0, "RACE": 1}, "thorough": {"FAULTS": 2, "BUSY": 0, "SAME": 0, "RACE": 1}}},
+        {"name": "two_callers", "steps": 40000, "timeout_s": {"quick": 300, "thorough": 3000}, "pkg": "root", "entry": "VerifTwoCallers", "stubs": EST_STUBS, "reach": ["both-returned"],
+         "preempts": {"quick": 1, "thorough": 1}, "params": {"quick": {"FAULTS": 1, "BUSY": 1, "SAME": 0, "RACE": 1}, "thorough": {"FAULTS": 2, "BUSY": 1, "SAME": 0, "RACE": 1}}},
+        {"name": "two_callers_idle", "steps": 40000, "timeout_s": {"quick": 300, "thorough": 3000}, "pkg": "root", "entry": "VerifTwoCallers", "stubs": EST_STUBS, "reach": ["both-returned"],
+         "preempts": {"quick": 1, "thorough": 1}, "params": {"quick": {"FAULTS": 1, "BUSY": 0, "SAME": 0, "RACE": 1}, "thorough": {"FAULTS": 2, "BUSY": 0, "SAME": 0, "RACE": 1}}},
         {"name": "concurrent_failure_reports", "pkg": "root", "entry": "VerifConcurrentFailureReports", "stubs": EST_STUBS, "reach": ["reported"],
          "preempts": {"quick": 2, "thorough": 3}, "params": {"quick": {"FAULTS": 0, "RACE": 1}, "thorough": {"FAULTS": 0, "RACE": 1}}},
         {"name": "two_callers_same_region", "steps": 40000, "timeout_s": {"thorough": 3000}, "pkg": "root", "entry": "VerifTwoCallers", "stubs": EST_STUBS, "reach": ["both-returned"],
